@@ -23,7 +23,7 @@ func init() {
 			"(R3) the import transforms (prefixModules, reindexAndMergePackage) write only fields outside the hash's value read-set; " +
 			"(R4) the simplified test hash can only be switched on by the CLI decode commands; " +
 			"(R5) every cache location (states/outputs/index sub-store) is derived from that hash through ModuleHashes.Get of the module's own name; " +
-			"(R6) the one dropped error on the hash path (AncestorsOf) is on a key already validated. Also (R1) the block-filter query hashed for a module is asked of that module itself, and helpers between a field and the buffer are accepted only when transparent (getters, carriers, distinct constants, no string arithmetic). Also (R1) the hashed buffer is created in hashModule or emptied before the first write on every path.",
+			"(R6) the one dropped error on the hash path (AncestorsOf) is on a key already validated. Also (R1) the block-filter query hashed for a module is asked of that module itself, and helpers between a field and the buffer are accepted only when transparent (getters, carriers, distinct constants, no string arithmetic). Also (R1) the hashed buffer is created in hashModule or emptied before the first write on every path. Also (R1) the three module kinds are hashed under three different tags.",
 		NotCovered:  "Collision resistance; that descendants and nothing else change (follows from R1's recursion plus R3 but is not separately proven). Open known finding D11: two inputs of the same kind swapped keep the identifier (rule hashModule/input-order, listed in known_findings.json). Store update policy/value type are not hashed (not listed by the statement).",
 		Assumptions: []string{"sha1 and bytes.Buffer are deterministic", "generated getters are field loads"},
 	})
@@ -530,6 +530,7 @@ func runC06(p *core.Prog, r *core.Report) {
 	})
 	r.Guard("C06.R1", "filter-query-receiver", "the module's own filter query", func() { checkFilterQueryReceiver(p, r, "C06.R1") })
 	r.Guard("C06.R1", "buffer-fresh", "hashed buffer holds this module only", func() { checkHashBufferFresh(p, r, "C06.R1") })
+	r.GuardExact("C06.R1", "kind-tags", "three kinds, three tags", func() { checkKindTagsDistinct(p, r, "C06.R1") })
 	r.Guard("C06.R1", "input-order", "the order of the inputs is part of the identity", func() {
 		// "ordered inputs": for each input, in slice order, the hash receives something that tells WHICH module a map or
 		// store input refers to (its identifier), not only its kind; otherwise two inputs of the same kind can be swapped
